@@ -384,72 +384,131 @@ type Write struct {
 // History is the per-key issue order (ground truth: one writer per key).
 type History map[string][]Write
 
-// RunRound lets the writer of every key in keys issue n[k] operations concurrently (one
-// goroutine per key), with random short pauses. Values are unique. hist is extended.
-func (c *Cluster) RunRound(ctx context.Context, r *prng.R, keys []KeySpec, round int, minOps, maxOps int, delPct int, hist History) {
+// RunRound lets every node's client issue, for each key it writes, nOps[k] in [minOps,
+// maxOps] operations, concurrently (one goroutine per writer node), with random short
+// pauses. About a third of the client transactions carry 2-3 operations on different
+// keys of that writer (same or different leaseholders; aspen splits a transaction by
+// leaseholder and does not promise atomicity across leaseholders). Values are unique and
+// each key's operations are issued in order by its single writer, so the per-key issue
+// order stays the ground truth. hist is extended. Returns the number of multi-op
+// transactions committed.
+func (c *Cluster) RunRound(ctx context.Context, r *prng.R, keys []KeySpec, round int, minOps, maxOps int, delPct int, hist History) int {
 	var wg sync.WaitGroup
 	var mu sync.Mutex
+	multi := 0
+	type keyState struct {
+		ks      KeySpec
+		left    int
+		next    int
+		lastDel bool
+	}
+	byWriter := map[int][]*keyState{}
 	for _, ks := range keys {
 		w, l := c.Nodes[ks.Writer], c.Nodes[ks.Leader]
 		if !w.Up || !l.Up {
 			continue
 		}
-		nOps := r.Range(minOps, maxOps)
-		kr := prng.New(int64(r.U64()>>1), "writer/"+ks.Name, round)
-		mu.Lock()
 		base := len(hist[ks.Name])
-		lastDel := base == 0 || hist[ks.Name][base-1].Del
-		mu.Unlock()
+		byWriter[ks.Writer] = append(byWriter[ks.Writer], &keyState{
+			ks: ks, left: r.Range(minOps, maxOps), next: base,
+			lastDel: base == 0 || hist[ks.Name][base-1].Del,
+		})
+	}
+	for wi := 0; wi < len(c.Nodes); wi++ {
+		kss := byWriter[wi]
+		if len(kss) == 0 {
+			continue
+		}
+		w := c.Nodes[wi]
+		kr := prng.New(int64(r.U64()>>1), fmt.Sprintf("writer/%d", wi), round)
 		wg.Add(1)
-		go func(ks KeySpec) {
+		go func() {
 			defer wg.Done()
-			for i := 0; i < nOps; i++ {
-				wr := Write{Key: ks.Name, Seq: base + i, Round: round}
-				if !lastDel && kr.Intn(100) < delPct {
-					wr.Del = true
-				} else {
-					wr.Value = fmt.Sprintf("%s#%d", ks.Name, wr.Seq)
-				}
-				octx, cancel := context.WithTimeout(ctx, 20*time.Second)
-				var err error
-				if wr.Del {
-					if ks.Writer != ks.Leader {
-						// Delete takes no lease option: the client's node must know the
-						// key (digest present) or it would claim the lease itself.
-						if _, ok := c.WaitKey(octx, ks.Writer, ks.Name, 10*time.Second, func(s KeyState) bool { return s.HasDigest }); !ok {
-							cancel()
-							wr.Del = false
-							wr.Value = fmt.Sprintf("%s#%d", ks.Name, wr.Seq)
-							octx, cancel = context.WithTimeout(ctx, 20*time.Second)
-							err = w.DB.Set(octx, []byte(ks.Name), []byte(wr.Value), aspen.NodeKey(l.Key))
-						} else {
-							err = w.DB.Delete(octx, []byte(ks.Name))
-						}
-					} else {
-						err = w.DB.Delete(octx, []byte(ks.Name))
+			for {
+				var live []*keyState
+				for _, k := range kss {
+					if k.left > 0 {
+						live = append(live, k)
 					}
-				} else if ks.Writer != ks.Leader {
-					err = w.DB.Set(octx, []byte(ks.Name), []byte(wr.Value), aspen.NodeKey(l.Key))
-				} else {
-					err = w.DB.Set(octx, []byte(ks.Name), []byte(wr.Value))
 				}
+				if len(live) == 0 {
+					return
+				}
+				prng.Shuffle(kr, live)
+				n := 1
+				if len(live) > 1 && kr.Chance(1, 3) {
+					n = kr.Range(2, min(3, len(live)))
+				}
+				live = live[:n]
+				octx, cancel := context.WithTimeout(ctx, 20*time.Second)
+				tx := w.DB.OpenTx()
+				var wrs []Write
+				var err error
+				for _, k := range live {
+					l := c.Nodes[k.ks.Leader]
+					wr := Write{Key: k.ks.Name, Seq: k.next, Round: round}
+					del := !k.lastDel && kr.Intn(100) < delPct
+					if del && k.ks.Writer != k.ks.Leader {
+						// Delete takes no lease option: the client's node must know the key
+						// (digest present) or it would claim the lease itself.
+						if _, ok := c.WaitKey(octx, k.ks.Writer, k.ks.Name, 10*time.Second, func(s KeyState) bool { return s.HasDigest }); !ok {
+							del = false
+						}
+					}
+					if del {
+						wr.Del = true
+						err = tx.Delete(octx, []byte(k.ks.Name))
+					} else {
+						wr.Value = fmt.Sprintf("%s#%d", k.ks.Name, wr.Seq)
+						if k.ks.Writer != k.ks.Leader {
+							err = tx.Set(octx, []byte(k.ks.Name), []byte(wr.Value), aspen.NodeKey(l.Key))
+						} else {
+							err = tx.Set(octx, []byte(k.ks.Name), []byte(wr.Value))
+						}
+					}
+					if err != nil {
+						break
+					}
+					wrs = append(wrs, wr)
+				}
+				applied := err == nil
+				if applied {
+					err = tx.Commit(octx)
+				}
+				_ = tx.Close()
 				cancel()
-				if err == nil {
-					wr.OK = true
-				} else {
-					wr.Err = err.Error()
-				}
-				lastDel = wr.Del
 				mu.Lock()
-				hist[ks.Name] = append(hist[ks.Name], wr)
+				if len(wrs) > 1 && applied {
+					multi++
+				}
+				for i, k := range live {
+					k.left--
+					if i >= len(wrs) {
+						continue // never added to the transaction: not issued at all
+					}
+					wr := wrs[i]
+					if !applied {
+						continue // the transaction was never committed: nothing was issued
+					}
+					if err == nil {
+						wr.OK = true
+					} else {
+						// a failed commit may have applied any subset of its operations
+						wr.Err = err.Error()
+					}
+					k.next++
+					k.lastDel = wr.Del
+					hist[wr.Key] = append(hist[wr.Key], wr)
+				}
 				mu.Unlock()
 				if p := kr.Intn(4); p > 0 {
 					time.Sleep(time.Duration(kr.I64n(int64(time.Duration(p) * c.P.KVInterval))))
 				}
 			}
-		}(ks)
+		}()
 	}
 	wg.Wait()
+	return multi
 }
 
 // DoWrite issues one client write for ks synchronously and appends it to hist.
